@@ -156,7 +156,7 @@ Proof.
   apply (TW_run zst z_n z_awaited (fun _ i => i) z_handle false true z_order (fun _ => None) (fun _ => false) z_finish (fun s => s) z_drop m_final
            z_Q Z1 Z8 (fun _ _ _ _ _ _ => I) Z10 Z12 zmut (Tz n) (Zl n)
            (Uz_cont n) (Uz_stop n)).
-  - intros s is s1 t E [HZ|[Hd _]]; [destruct (z_order_some _ _ _ E) as [_ ->]; exact HZ|]. unfold z_order in E. rewrite Hd in E. discriminate.
+  - intros s is s1 t _ E [HZ|[Hd _]]; [destruct (z_order_some _ _ _ E) as [_ ->]; exact HZ|]. unfold z_order in E. rewrite Hd in E. discriminate.
   - intros s t HZ. cbn. left. apply Zl_endp. exact HZ.
   - intros s t o _ E. discriminate.
   - intros s t _ _ [HZ|HZ]; [left; apply Zl_endp|right; apply Zf_endp]; auto.
